@@ -1,4 +1,5 @@
 import Chess.Lemmas.MoveText
+import Chess.Lemmas.FnsEquiv.Letters
 
 /-!
 # C20 — the board display and move record show what was actually played
@@ -53,3 +54,14 @@ end Chess.Props.C20
 #print axioms Chess.Props.C20.record_grows_by_the_move_played
 #print axioms Chess.Props.C20.record_untouched_by_search
 #print axioms Chess.Props.C20.show_is_the_current_game
+
+/-! ### Translation tie (C20.T)
+`tools/translate.py` regenerates `Chess/Gen/Fns.lean` from the Rust text of the leaf functions on every run (a
+parser, not patterns); the theorems below — proved in `Chess/Lemmas/FnsEquiv/*` and re-checked by the kernel whenever
+the generated term changes — say that the TRANSLATED code equals the hand-written model and the generated tables this
+file's theorems are about, for the piece letters of the move record (`as_str_pgn`) and the glyphs of the diagram (`as_char`, both colours). A rewrite of the Rust text that keeps the meaning leaves them true; one that
+changes it breaks the theorem named after the function. -/
+#print axioms Chess.FnsEquiv.Piece_as_str_pgn_eq
+#print axioms Chess.FnsEquiv.Piece_as_str_pgn_table
+#print axioms Chess.FnsEquiv.Piece_as_char_eq
+#print axioms Chess.FnsEquiv.Piece_as_char_table
